@@ -228,7 +228,9 @@ def explicit_hydrogens(ctx, text, rng):
                 hp = [i for i, n in enumerate(a.GetNeighbors()) if n.GetAtomicNum() == 1]
                 if hp:
                     ctx.count('from_rdkit.explicit-h.position-%d' % hp[0])
-        want = Chem.MolToSmiles(Chem.RemoveHs(rh))
+        # (RemoveHs on a molecule whose double-bond stereo atoms are hydrogens re-picks them and can flip E/Z in this RDKit build -
+        # observed on trans-cyclododecene - so the all-hydrogens variant is judged against the source molecule itself)
+        want = Chem.MolToSmiles(rd) if variant == 'all-hydrogens' else Chem.MolToSmiles(Chem.RemoveHs(rh))
         ctx.evaluations += 1
         w = {'smiles': text, 'form': 'explicit-h/' + variant}
         try:
